@@ -25,6 +25,21 @@ def flaky(job, ch):
     return Outcome(obs=_flip[0])
 
 
+def spinner(job, ch):
+    """spins for ever when the second choice is taken; swallows the interrupt once, as harnesses that record escapes do"""
+    a = ch.choose(2, "a")
+    b = ch.choose(2, "b")
+    if b:
+        try:
+            while True:
+                pass
+        except BaseException:
+            pass
+        while True:
+            pass
+    return Outcome(obs=(a, b))
+
+
 def main():
     r1 = explore_job(toy, ("toy",), bound=1)
     r2 = explore_job(toy, ("toy",), bound=2)
@@ -47,7 +62,15 @@ def main():
         pass
     else:
         raise AssertionError("replay guard did not notice nondeterminism")
-    print("selftest ok: planted bug found at bound 2 (%d executions), full tree %d, guard trips" % (r2.executions, rf.executions))
+    from . import explore
+    saved = explore.HANG_SECONDS
+    explore.HANG_SECONDS = 0.3
+    try:
+        rh = explore_job(spinner, ("spinner",), bound=None)
+    finally:
+        explore.HANG_SECONDS = saved
+    assert "hang:execution" in rh.violations and rh.capped, "a spinning execution must become hang:execution and stop the job"
+    print("selftest ok: planted bug found at bound 2 (%d executions), full tree %d, replay guard trips, hang guard trips" % (r2.executions, rf.executions))
 
 
 if __name__ == "__main__":
